@@ -14,6 +14,7 @@ import (
 
 	"github.com/a-h/templ"
 	"github.com/a-h/templ/zzverif/kernel"
+	"github.com/a-h/templ/zzverif/shim/simsync"
 	"github.com/a-h/templ/zzverif/worlds/render/corpus"
 )
 
@@ -89,6 +90,13 @@ func newUniverse(nOnce int) *Universe {
 		}
 	}
 	return u
+}
+
+// lockAware tells the lock shim about the kernel: a task that waits for a lock of the code
+// under test is neither running nor parked, and the unlocker makes it running again.
+func lockAware(k *kernel.Kernel) func() {
+	simsync.SetBlockHooks(&simsync.BlockHooks{Begin: k.BlockBegin, Resume: k.BlockResume})
+	return func() { simsync.SetBlockHooks(nil) }
 }
 
 // Env is the per-render environment of the simulated expression bodies.
